@@ -24,6 +24,9 @@ def routes(kind):
     r = [('parse', 0), ('parse', 34)]
     r += [('setmulti', e) for e in ERR]
     r += [('setopt', e) for e in ERR]
+    if kind != 'bool':
+        # the same conversions into "simple" options (values stored in caller variables)
+        r += [('simple-setmulti', e) for e in ERR] + [('simple-setopt', e) for e in (0, 34)] + [('simple-parse', 0)]
     return name, idx, r
 
 
@@ -33,14 +36,28 @@ def script(spec):
          opt_line('i', 'int', dnum=7777),
          opt_line('f', 'float', dfp=7777.5),
          opt_line('b', 'bool', dbool=0),
+         opt_line('si', 'int', dnum=7777, simple=1),
+         opt_line('sf', 'float', dfp=7777.5, simple=1),
          'endschema', 'init 0 0 0']
     for kind in spec['k']:
         name, idx, rts = routes(kind)
         for route, eno in rts:
             if kind == 'int':
                 L.append('opt_setint 0:0 7777 0')
+                L.append('opt_setint 0:3 7777 0')
             elif kind == 'float':
                 L.append('opt_setfloat 0:1 7777.5 0')
+                L.append('opt_setfloat 0:4 7777.5 0')
+            if route.startswith('simple-'):
+                sname, sidx = ('si', 3) if kind == 'int' else ('sf', 4)
+                if route == 'simple-parse':
+                    L.append('parse_buf_errno 0 %s %d' % (hx('%s = %s' % (sname, quote(tok))), eno))
+                elif route == 'simple-setmulti':
+                    L.append('setmulti_errno 0 %s %s %d' % (hx(sname), hx(tok), eno))
+                else:
+                    L.append('setopt 0 0:%d %s %d' % (sidx, hx(tok), eno))
+                L.append('get 0 %s %s 0' % (kind, hx(sname)))
+                continue
             if route == 'parse':
                 L.append('parse_buf_errno 0 %s %d' % (hx('%s = %s' % (name, quote(tok))), eno))
             elif route == 'setmulti':
@@ -113,7 +130,7 @@ def judge(spec, events, death):
                 key = '%s:stale-errno:%s' % (kind, route)
             else:
                 what = ('accepted-as-%s' % ('wrong-value' if exp[0] == 'ok' else 'number')) if accepted else 'rejected-valid'
-                key = '%s:%s:%s:%s' % (kind, what, 'parse' if route == 'parse' else 'setter', shape(tok))
+                key = '%s:%s:%s:%s' % (kind, what, 'parse' if route.endswith('parse') else 'simple-setter' if route.startswith('simple') else 'setter', shape(tok))
             v.bad(key, 'token %r as %s via %s (errno=%d): expected %s, got rc=%s value=%r' % (tok, kind, route, eno, exp, rc, val))
     if not judged_any:
         v.skipped = True
